@@ -828,6 +828,17 @@ def builders(body):
             if nested:
                 continue
             out.append(Builder(acc[1], acc[0], n.iter, n.target, guards, acc[2], key=acc[3], node=n))
+    # iterating an identity filter `[x for x in XS if c(x)]` is iterating XS under the guard c
+    for b in out:
+        it = b.iter
+        for _ in range(2):
+            if isinstance(it, (ast.ListComp, ast.GeneratorExp)) and len(it.generators) == 1 and isinstance(it.generators[0].target, ast.Name) \
+                    and norm(it.elt) == it.generators[0].target.id and isinstance(b.target, ast.Name):
+                inner_var = it.generators[0].target.id
+                renamed = [_subst_expr(c, {inner_var: ast.Name(id=b.target.id, ctx=ast.Load())}) for c in it.generators[0].ifs]
+                b.guards = [(c, True) for c in renamed] + list(b.guards)
+                it = it.generators[0].iter
+                b.iter = it
     return out
 
 
